@@ -15,10 +15,18 @@ func treeSort(top *token) *token {
 		"function": 50,
 		"init":     -10,
 	}
+	// a named type over a predeclared type (type Celsius float64) comes before the struct types: their fields take
+	// their zero values from it when they are compiled
+	rank := func(t *token) int {
+		if t.Symbol == "type" && len(t.Tokens) > 1 {
+			if _, ok := convMap[t.Tokens[1].Symbol]; ok && t.Tokens[1].Symbol != "struct" && len(t.Tokens[1].Tokens) == 0 {
+				return priority["type"] + 5
+			}
+		}
+		return priority[t.Symbol]
+	}
 	sort.SliceStable(tt, func(ai, bi int) bool {
-		a, b := tt[ai], tt[bi]
-		am, bm := priority[a.Symbol], priority[b.Symbol]
-		return am > bm
+		return rank(tt[ai]) > rank(tt[bi])
 	})
 	return top
 }
